@@ -255,6 +255,26 @@ def r4(idx, rep):
     rep.check(kw.get("csvpath") == "self.matcher.csvpath", "R4", f"{fh.file}::Expression.handle_errors_if handler owner", f"{kw}", K.where(fh, fh.node))
 
 
+_IDX = []
+
+
+def _records(fi, stmts, recorder, depth):
+    """the statements call one of `recorder`, directly or through private helpers of the same class family (self.<helper>(…))"""
+    for s_ in stmts:
+        for c in ast.walk(s_):
+            if not isinstance(c, ast.Call):
+                continue
+            nm = call_name(c)
+            if nm in recorder:
+                return True
+            if (depth > 0 and _IDX and fi.cls and isinstance(c.func, ast.Attribute) and isinstance(c.func.value, ast.Name) and c.func.value.id == "self"
+                    and _IDX[0].has_cls(fi.cls) and _IDX[0].has_method(fi.cls, nm)):
+                m = _IDX[0].method(fi.cls, nm)
+                if _records(m, m.node.body, recorder, depth - 1):
+                    return True
+    return False
+
+
 def _trap_shape(fi, rep, rid, must_contain, recorder):
     """the function has a try whose body contains the calls in must_contain, a handler for Exception that
     records through `recorder` and does not re-raise"""
@@ -272,7 +292,7 @@ def _trap_shape(fi, rep, rid, must_contain, recorder):
                 detail = f"handler catches only {tn}"
                 continue
             reraises = any(isinstance(n, ast.Raise) for s in h.body for n in ast.walk(s))
-            records = any(isinstance(c, ast.Call) and call_name(c) in recorder for s in h.body for c in ast.walk(s))
+            records = _records(fi, h.body, recorder, 3)
             if reraises:
                 detail = "the handler re-raises"
             elif not records:
@@ -290,6 +310,7 @@ def _trap_shape(fi, rep, rid, must_contain, recorder):
 
 
 def r5(idx, rep):
+    _IDX[:] = [idx]
     fe = idx.method("Expression", "matches")
     ff = idx.method("Function", "matches")
     fl = idx.method("Matcher", "_do_lasts")
